@@ -321,6 +321,14 @@ pub trait Prop: Sync + Send {
     fn budget(&self, tier: Tier) -> Budget;
     /// judge one tape-decoded case
     fn run_tape(&self, tape: &[u8], tier: Tier, rec: &mut Recorder) -> Result<(), Failure>;
+    /// judge raw bytes (byte-level fuzz targets); default: not supported
+    fn run_bytes(&self, _data: &[u8], _rec: &mut Recorder) -> Result<(), Failure> {
+        Err(Failure::new("harness/run-bytes-unsupported", "this property has no byte-level entry"))
+    }
+    /// cargo-fuzz target of this property, if any: ("tape" | "c18_bytes" | "c14_bytes")
+    fn fuzz_target(&self) -> Option<&'static str> {
+        None
+    }
     /// number of deterministic (enumerated) work items; each is judged by `run_item`
     fn items(&self, _tier: Tier) -> u64 {
         0
@@ -382,6 +390,8 @@ fn seed_bytes(seed: u64, worker: u64, prop: &str) -> [u8; 32] {
 pub enum Payload {
     Tape(Vec<u8>),
     Item(u64),
+    /// raw bytes for the byte-level fuzz targets (C18 btor2 text, C14 SMT-LIB text)
+    Bytes(Vec<u8>),
 }
 
 pub struct Found {
@@ -408,6 +418,7 @@ pub fn write_replay(prop: &str, tier: Tier, found: &Found) -> PathBuf {
     let (kind, body) = match &found.payload {
         Payload::Tape(t) => ("tape", hex(t)),
         Payload::Item(i) => ("item", i.to_string()),
+        Payload::Bytes(b) => ("bytes", hex(b)),
     };
     let h = crate::tape::hash_bytes(format!("{}{}{}", prop, kind, body).as_bytes());
     let path = dir.join(format!("{}-{:016x}.replay", prop, h));
@@ -449,6 +460,8 @@ pub fn read_replay(path: &Path) -> Result<ReplayFile, String> {
             tier = if r.trim() == "thorough" { Tier::Thorough } else { Tier::Quick };
         } else if let Some(r) = l.strip_prefix("tape:") {
             payload = Some(Payload::Tape(unhex(r)));
+        } else if let Some(r) = l.strip_prefix("bytes:") {
+            payload = Some(Payload::Bytes(unhex(r)));
         } else if let Some(r) = l.strip_prefix("item:") {
             payload = Some(Payload::Item(r.trim().parse().map_err(|_| "bad item")?));
         }
@@ -465,6 +478,7 @@ pub fn judge(prop: &dyn Prop, payload: &Payload, tier: Tier, rec: &mut Recorder)
     let r = guard(|| match payload {
         Payload::Tape(t) => prop.run_tape(t, tier, rec),
         Payload::Item(i) => prop.run_item(*i, tier, rec),
+        Payload::Bytes(b) => prop.run_bytes(b, rec),
     });
     let r = match r {
         Ok(r) => r,
@@ -570,6 +584,7 @@ fn beat_set(b: &Heartbeat, payload: &Payload) {
     let text = match payload {
         Payload::Tape(t) => format!("tape: {}", hex(t)),
         Payload::Item(i) => format!("item: {}", i),
+        Payload::Bytes(x) => format!("bytes: {}", hex(x)),
     };
     *b.lock().unwrap() = Some((Instant::now(), text));
 }
@@ -579,6 +594,8 @@ fn beat_clear(b: &Heartbeat) {
 }
 
 pub struct RunOutcome {
+    pub fuzz: Option<FuzzStats>,
+    pub started: Instant,
     pub rec: Recorder,
     pub violations: Vec<(Found, PathBuf)>,
     pub harness_errors: Vec<String>,
@@ -604,6 +621,8 @@ pub fn run_check(prop: Arc<dyn Prop>, tier: Tier) -> RunOutcome {
     if let Err(e) = prop.setup(tier) {
         harness_errors.push(format!("setup: {}", e));
         return RunOutcome {
+            fuzz: None,
+            started: start,
             rec: Recorder::new(),
             violations: vec![],
             harness_errors,
@@ -797,7 +816,128 @@ pub fn run_check(prop: Arc<dyn Prop>, tier: Tier) -> RunOutcome {
             violations.push((f, path));
         }
     }
-    RunOutcome { rec, violations, harness_errors, wall_s: start.elapsed().as_secs_f64() }
+    RunOutcome { fuzz: None, started: start, rec, violations, harness_errors, wall_s: start.elapsed().as_secs_f64() }
+}
+
+#[derive(Default, Clone, Debug)]
+pub struct FuzzStats {
+    pub target: String,
+    pub secs: u64,
+    pub execs: u64,
+    pub corpus_files: u64,
+    pub artifacts: u64,
+    pub new_violations: u64,
+    pub known_hits: u64,
+    pub note: String,
+}
+
+/// Coverage-guided stage of the thorough tier: runs the property's cargo-fuzz target (same decoders
+/// and in-target oracle) for PV_FUZZ_SECS seconds, then re-judges every artifact in-process.
+pub fn fuzz_stage(prop: Arc<dyn Prop>, tier: Tier, out: &mut RunOutcome) -> Option<FuzzStats> {
+    let target = prop.fuzz_target()?;
+    let secs: u64 = std::env::var("PV_FUZZ_SECS").ok().and_then(|s| s.parse().ok()).unwrap_or(120);
+    if secs == 0 {
+        return None;
+    }
+    let root = verif_root();
+    let bin = root.join("fuzz/target/x86_64-unknown-linux-gnu/release").join(target);
+    let mut st = FuzzStats { target: target.to_string(), secs, ..Default::default() };
+    if !bin.exists() {
+        st.note = format!("fuzz binary {} not built; stage skipped", bin.display());
+        return Some(st);
+    }
+    let work = root.join("fuzz/work").join(format!("{}-{}", prop.id(), target));
+    let arts = root.join("fuzz/artifacts").join(format!("{}-{}", prop.id(), target));
+    let _ = std::fs::remove_dir_all(&arts);
+    let _ = std::fs::create_dir_all(&work);
+    let _ = std::fs::create_dir_all(&arts);
+    let seeds = if target == "tape" {
+        // libFuzzer grows inputs slowly from an empty corpus; start from full-length random tapes
+        let d = root.join("fuzz/work").join(format!("{}-{}-seeds", prop.id(), target));
+        let _ = std::fs::remove_dir_all(&d);
+        let _ = std::fs::create_dir_all(&d);
+        let mut g = crate::tape::SplitMix(verif_seed() ^ 0xF022);
+        let len = prop.budget(tier).max_tape;
+        for k in 0..64 {
+            let l = if k % 4 == 0 { len } else { (len / 8).max(8) + (g.next() as usize % len.max(1)) * 7 / 8 };
+            let bytes: Vec<u8> = (0..l).map(|_| g.next() as u8).collect();
+            let _ = std::fs::write(d.join(format!("seed{:02}", k)), bytes);
+        }
+        d
+    } else {
+        let d = root.join("corpus").join(target);
+        let _ = std::fs::create_dir_all(&d);
+        d
+    };
+    let mut cmd = std::process::Command::new(&bin);
+    cmd.env("PV_FUZZ_PROP", prop.id()).env("PV_ROOT", &root);
+    cmd.arg(format!("-artifact_prefix={}/", arts.display()))
+        .arg(format!("-max_total_time={}", secs))
+        .arg(format!("-seed={}", verif_seed().max(1)))
+        .arg("-len_control=0")
+        .arg(format!("-max_len={}", prop.budget(tier).max_tape.max(512)))
+        .arg(format!("-fork={}", (default_threads() / 2).max(1)))
+        .arg("-ignore_crashes=1")
+        .arg("-print_final_stats=1")
+        .arg(&work)
+        .arg(&seeds);
+    if target == "c18_bytes" {
+        let inputs = std::env::var("PATRONUS_SRC").unwrap_or("/repo".into());
+        for d in ["unittest", "chiseltest", "verilog_tests"] {
+            let p = std::path::Path::new(&inputs).join("inputs").join(d);
+            if p.exists() {
+                cmd.arg(p);
+            }
+        }
+    }
+    let output = cmd.stdout(std::process::Stdio::piped()).stderr(std::process::Stdio::piped()).output();
+    match output {
+        Err(e) => {
+            st.note = format!("could not run the fuzz binary: {}", e);
+            return Some(st);
+        }
+        Ok(o) => {
+            let text = format!("{}{}", String::from_utf8_lossy(&o.stdout), String::from_utf8_lossy(&o.stderr));
+            for l in text.lines() {
+                if let Some(r) = l.strip_prefix("stat::number_of_executed_units:") {
+                    st.execs += r.trim().parse::<u64>().unwrap_or(0);
+                }
+                // fork mode prints "#N: cov: .. ft: .. corp: .. exec/s .."
+                if l.starts_with('#') && l.contains("exec/s") {
+                    if let Some(n) = l[1..].split(':').next().and_then(|x| x.trim().parse::<u64>().ok()) {
+                        st.execs = st.execs.max(n);
+                    }
+                }
+            }
+        }
+    }
+    st.corpus_files = std::fs::read_dir(&work).map(|d| d.count() as u64).unwrap_or(0);
+    // re-judge artifacts
+    let known = KnownFindings::load();
+    let mut seen: HashSet<String> = out.violations.iter().map(|v| v.0.failure.sig.clone()).collect();
+    if let Ok(rd) = std::fs::read_dir(&arts) {
+        let mut files: Vec<_> = rd.filter_map(|e| e.ok().map(|e| e.path())).collect();
+        files.sort();
+        for f in files {
+            let Ok(data) = std::fs::read(&f) else { continue };
+            st.artifacts += 1;
+            let payload = if target == "tape" { Payload::Tape(data) } else { Payload::Bytes(data) };
+            let mut rec = Recorder::new();
+            rec.frozen = true;
+            if let Err(fail) = judge(prop.as_ref(), &payload, tier, &mut rec) {
+                if known.matches(prop.id(), &fail.sig).is_some() {
+                    st.known_hits += 1;
+                } else if seen.insert(fail.sig.clone()) {
+                    st.new_violations += 1;
+                    let found = Found { failure: fail, payload };
+                    let path = write_replay(prop.id(), tier, &found);
+                    out.violations.push((found, path));
+                }
+            }
+        }
+    }
+    out.rec.evaluations += st.execs;
+    Some(st)
 }
 
 pub fn write_evidence(prop: &dyn Prop, tier: Tier, out: &RunOutcome) {
@@ -821,6 +961,14 @@ pub fn write_evidence(prop: &dyn Prop, tier: Tier, out: &RunOutcome) {
         coverage.insert("exhaustive_part".into(), json!(n));
     }
     coverage.insert("exhaustive".into(), json!(false));
+    if let Some(f) = &out.fuzz {
+        coverage.insert(
+            "coverage_guided_stage".into(),
+            json!({"engine": "libFuzzer (cargo-fuzz)", "target": f.target, "seconds": f.secs, "executions": f.execs,
+                   "corpus_files": f.corpus_files, "artifacts": f.artifacts, "artifacts_matching_listed_findings": f.known_hits,
+                   "new_violations": f.new_violations, "note": f.note}),
+        );
+    }
     let v = json!({
         "property_id": prop.id(),
         "tier": tier.name(),
@@ -838,7 +986,26 @@ pub fn write_evidence(prop: &dyn Prop, tier: Tier, out: &RunOutcome) {
 
 /// Runs a check end to end, prints the interface lines, returns the exit code.
 pub fn check_main(prop: Arc<dyn Prop>, tier: Tier) -> i32 {
-    let out = run_check(prop.clone(), tier);
+    let mut out = run_check(prop.clone(), tier);
+    if tier == Tier::Thorough && !prop.isolated() {
+        if let Some(st) = fuzz_stage(prop.clone(), tier, &mut out) {
+            println!(
+                "{} fuzz stage: target={} secs={} execs={} corpus={} artifacts={} (listed findings {}) new violations={} {}",
+                prop.id(), st.target, st.secs, st.execs, st.corpus_files, st.artifacts, st.known_hits, st.new_violations, st.note
+            );
+            out.fuzz = Some(st);
+        }
+    } else if tier == Tier::Thorough && prop.fuzz_target().is_some() {
+        // isolated properties only have byte-level targets, which do not need the shim
+        if let Some(st) = fuzz_stage(prop.clone(), tier, &mut out) {
+            println!(
+                "{} fuzz stage: target={} secs={} execs={} corpus={} artifacts={} (listed findings {}) new violations={} {}",
+                prop.id(), st.target, st.secs, st.execs, st.corpus_files, st.artifacts, st.known_hits, st.new_violations, st.note
+            );
+            out.fuzz = Some(st);
+        }
+    }
+    out.wall_s = out.started.elapsed().as_secs_f64();
     write_evidence(prop.as_ref(), tier, &out);
     let known = KnownFindings::load();
     for (sig, n) in out.rec.known_hits.iter() {
